@@ -144,7 +144,7 @@ def shrink(ops, fails):
 
 def check_histories(ctx, hists, tag):
     binary = ctx.harness("debug")
-    recs = yvlib.run_harness(binary, [hist_line(h) for h in hists], quarantine=True)
+    recs = yvlib.run_harness(binary, [hist_line(h) for h in hists], quarantine=True, case_timeout_ms=3000)
     c = consts()
     cap, ln, ld = c.get("INIT_CAPACITY", 4), c.get("MAX_LOAD_NUM", 3), c.get("MAX_LOAD_DEN", 4)
     terms = []
@@ -242,7 +242,7 @@ def run(ctx):
         budget = [30]
 
         def observe(ops):
-            rec = yvlib.run_harness(binary, [hist_line(ops)], quarantine=True, shards=1)[0]
+            rec = yvlib.run_harness(binary, [hist_line(ops)], quarantine=True, shards=1, case_timeout_ms=3000)[0]
             sp = yvlib.coq_eval(["YV:InternRun"], ["run_intern_spec_w %s" % hist_coq(ops)], tag="C11shrink")[0]
             return impl_render(rec)[0], sp
 
